@@ -10,7 +10,8 @@
 //!   ev started|finished r=..
 //!   ev hook before|after started|passed|failed r=..
 //!   ev bg|step <idx> started|passed|skipped|failed [notfound|ambiguous|panic] r=..
-//!   ev parse_error | feature_started | rule_started | run_started | run_finished | parsing_finished
+//!   ev parse_error | feature_started | feature_finished | rule_started | rule_finished | other_rule_started | other_rule_finished
+//!      | run_started | run_finished | parsing_finished   (`other_rule`: a second rule of the same feature)
 use std::sync::Arc;
 
 use cucumber::{
@@ -69,6 +70,10 @@ pub fn run(lines: &[Vec<String>]) {
             text.push_str(&format!("{ind}  Given own {i}\n"));
         }
     }
+    // a second rule of the same feature, for bracket events that do not concern the scripted scenario
+    // (its events are sent under the scripted feature's Source; the rule value itself comes from a separate parse)
+    let other = parse_feature("Feature: f\n  Rule: other\n    Scenario: o\n      Given x\n");
+    let other_rule = Source::new(other.rules[0].clone());
     let feat = parse_feature(&text);
     let feature = Source::new(feat.clone());
     let rule = in_rule.then(|| Source::new(feat.rules[0].clone()));
@@ -130,6 +135,9 @@ pub fn run(lines: &[Vec<String>]) {
             "feature_started" => Ok(Event::new(Ev::feature_started(feature.clone()))),
             "feature_finished" => Ok(Event::new(Ev::feature_finished(feature.clone()))),
             "rule_started" => Ok(Event::new(Ev::rule_started(feature.clone(), rule.clone().expect("rule")))),
+            "rule_finished" => Ok(Event::new(Ev::rule_finished(feature.clone(), rule.clone().expect("rule")))),
+            "other_rule_started" => Ok(Event::new(Ev::rule_started(feature.clone(), other_rule.clone()))),
+            "other_rule_finished" => Ok(Event::new(Ev::rule_finished(feature.clone(), other_rule.clone()))),
             "run_started" => Ok(Event::new(Ev::Started)),
             "run_finished" => Ok(Event::new(Ev::Finished)),
             "parsing_finished" => Ok(Event::new(Ev::ParsingFinished {
